@@ -413,3 +413,48 @@ mod tests {
     }
 }
 
+
+/// Scalar projection of the rate controller's state (verification builds only).
+#[cfg(uflow_verif)]
+#[derive(Clone,Debug,PartialEq)]
+pub struct VerifRateState {
+    /// 0 = AwaitSend, 1 = SlowStart, 2 = ThroughputEqn
+    pub mode: u8,
+    pub send_rate: u32,
+    pub max_send_rate: u32,
+    pub send_rate_tcp: Option<u32>,
+    pub time_last_doubled_ms: Option<u64>,
+    pub nofeedback_exp_ms: Option<u64>,
+    pub nofeedback_idle: bool,
+    pub prev_loss_rate: f64,
+    pub rtt_s: Option<f64>,
+    pub rtt_ms: Option<u64>,
+    pub rto_ms: Option<u64>,
+    pub recv_rate_set: Vec<(u32, u64, bool)>,
+}
+
+#[cfg(uflow_verif)]
+impl SendRateComp {
+    pub fn verif_state(&self) -> VerifRateState {
+        let (mode, send_rate_tcp, time_last_doubled_ms) = match self.mode {
+            SendRateMode::AwaitSend => (0, None, None),
+            SendRateMode::SlowStart(ref state) => (1, None, state.time_last_doubled_ms),
+            SendRateMode::ThroughputEqn(ref state) => (2, Some(state.send_rate_tcp), None),
+        };
+
+        VerifRateState {
+            mode,
+            send_rate: self.send_rate,
+            max_send_rate: self.max_send_rate,
+            send_rate_tcp,
+            time_last_doubled_ms,
+            nofeedback_exp_ms: self.nofeedback_exp_ms,
+            nofeedback_idle: self.nofeedback_idle,
+            prev_loss_rate: self.prev_loss_rate,
+            rtt_s: self.rtt_s,
+            rtt_ms: self.rtt_ms,
+            rto_ms: self.rto_ms,
+            recv_rate_set: self.recv_rate_set.verif_entries(),
+        }
+    }
+}
